@@ -1,4 +1,6 @@
 // C14 (binary edge lists: layout and round trip) and C15 (truncated binary files) over the in-memory stream model.
+//   Q=6/7: the loader / the writer against a harness-defined *recording* graph class (the functions are templates over the graph
+//   class), so that vertex indices range over all 32-bit values and the index bytes of a file are arbitrary; -DCUT=1 cuts the file
 //   -DUND=0/1, -DBL=<label type> 0 NoLabel 1 uint8_t 2 uint16_t 3 int 4 uint64_t 5 float 6 double, -DQ=<obligation>
 #include "vh.h"
 #include "BaseGraph/fileio.hpp"
@@ -104,6 +106,23 @@ static G load_graph() {
     return io::loadBinaryEdgeList<GT, L>(FNAME);
 }
 
+#if Q == 6 || Q == 7
+// what the loader asks of a graph class: (0)-constructor, getSize, resize, addEdge(.., force); what the writer asks: edges(), getEdgeLabel
+template <class LL> struct RecGraph {
+    size_t size; unsigned nrec; unsigned ra[RECS + 1], rb[RECS + 1]; LL rl[RECS + 1]; bool forced[RECS + 1]; std::vector<Edge> list;
+    explicit RecGraph(size_t n = 0) : size(n), nrec(0) {}
+    size_t getSize() const { return size; }
+    void resize(size_t n) { if (n < size) throw std::invalid_argument("Graph's size cannot be reduced."); size = n; }
+    void add_(VertexIndex a, VertexIndex b, const LL &l, bool f) { if (a >= size || b >= size) throw std::out_of_range("Vertex index out of range"); if (nrec < RECS) { ra[nrec] = a; rb[nrec] = b; rl[nrec] = l; forced[nrec] = f; } ++nrec; }
+    void addEdge(VertexIndex a, VertexIndex b, const LL &l, bool force = false) { add_(a, b, l, force); }
+    void addEdge(VertexIndex a, VertexIndex b, bool force = false) { add_(a, b, LL(), force); }
+    void addReciprocalEdge(VertexIndex a, VertexIndex b, const LL &l, bool force = false) { add_(a, b, l, force); add_(b, a, l, force); }
+    const std::vector<Edge> &edges() const { return list; }
+    LL getEdgeLabel(VertexIndex a, VertexIndex b, bool = true) const { LL r = LL(); for (unsigned k = 0; k < RECS; ++k) if (k < nrec && ra[k] == a && rb[k] == b) r = rl[k]; return r; }
+    size_t getEdgeNumber() const { return nrec; }
+};
+#endif
+
 extern "C" void harness() {
     file_openable(true);
 #if Q == 0 || Q == 1
@@ -184,6 +203,62 @@ extern "C" void harness() {
 #endif
         }
         if (len % REC) REACH("file cut inside a record");
+    }
+#elif Q == 6
+    {   // every byte of the index fields arbitrary: the loader hands the graph class exactly the little-endian values, record by record
+        unsigned char buf[RECS * REC + 1]; unsigned ea[RECS], eb[RECS]; L rl[RECS];
+        for (unsigned r = 0; r < RECS; ++r) {
+            for (unsigned k = 0; k < 8; ++k) buf[r * REC + k] = (unsigned char)(ndu() & 0xff);
+            ea[r] = 0; eb[r] = 0;
+            for (unsigned k = 0; k < 4; ++k) { ea[r] |= (unsigned)buf[r * REC + k] << (8 * k); eb[r] |= (unsigned)buf[r * REC + 4 + k] << (8 * k); }
+            ASSUME(ea[r] != 0xffffffffu && eb[r] != 0xffffffffu);       // a graph of 2^32 vertices is outside the claim
+            rl[r] = pick_label();
+            unsigned long long bits = label_bits(rl[r]); for (unsigned k = 0; k < LSZ; ++k) buf[r * REC + 8 + k] = (unsigned char)(bits >> (8 * k));
+        }
+#ifdef CUT
+        const size_t len = nd(RECS * REC + 1);
+#else
+        const size_t len = RECS * REC;
+#endif
+        file_set(buf, len);
+        const unsigned complete = (unsigned)(len / REC);
+        bool threw = false; RecGraph<L> h(0);
+        try { h = io::loadBinaryEdgeList<RecGraph, L>(FNAME); } catch (std::exception &) { threw = true; }
+        CHECK(!threw, "a file of records loads without an exception, whatever the bytes of the index fields");
+        if (!threw) {
+            CHECK(h.nrec == complete, "the loader adds exactly one edge per complete record, whatever the bytes");
+            unsigned r = nd(RECS);
+            if (r < complete && r < h.nrec) {
+                CHECK(h.ra[r] == ea[r] && h.rb[r] == eb[r], "source and destination are decoded as 32-bit little-endian unsigned integers, record by record");
+                CHECK(label_eq(h.rl[r], rl[r]), "the label is decoded from its fixed-size little-endian bytes");
+                CHECK(h.forced[r], "records are added with force (the loader does not scan for duplicates)");
+                if ((ea[r] & 0xff) == 0xff && r + 1 < complete) REACH("record starting with byte 0xff followed by another record");
+                if (ea[r] > 0xffff) REACH("index using the upper bytes");
+            }
+            unsigned maxv = 0; for (unsigned q = 0; q < RECS; ++q) if (q < complete) { if (ea[q] > maxv) maxv = ea[q]; if (eb[q] > maxv) maxv = eb[q]; }
+            CHECK(h.getSize() == (complete ? (size_t)maxv + 1 : 0), "the loaded graph has 1+largest-used-index vertices");
+        }
+    }
+#elif Q == 7
+    {   // the writer's layout for arbitrary 32-bit indices
+        RecGraph<L> g(0); unsigned ea[RECS], eb[RECS]; L rl[RECS];
+        unsigned cnt = nd(RECS + 1);
+        for (unsigned r = 0; r < RECS; ++r) if (r < cnt) {
+            ea[r] = ndu(); eb[r] = ndu(); rl[r] = pick_label();
+            for (unsigned q = 0; q < RECS; ++q) if (q < r) ASSUME(!(ea[q] == ea[r] && eb[q] == eb[r]));   // one label per pair
+            g.ra[r] = ea[r]; g.rb[r] = eb[r]; g.rl[r] = rl[r]; g.forced[r] = false; g.nrec = r + 1; g.list.push_back(Edge(ea[r], eb[r]));
+        }
+        g.size = 0xffffffffu;
+        write_graph(g);
+        CHECK(file_len() == (size_t)cnt * REC, "the file is nothing but one fixed-size record per edge");
+        unsigned r = nd(RECS);
+        if (r < cnt) {
+            CHECK(le_bytes(r * REC, 4) == ea[r] && le_bytes(r * REC + 4, 4) == eb[r], "source and destination are written as 32-bit little-endian unsigned integers");
+#if BL != 0
+            CHECK(le_bytes(r * REC + 8, LSZ) == label_bits(rl[r]), "the label follows as its fixed-size little-endian bytes");
+#endif
+            if (ea[r] > 0xffffff) REACH("index using the top byte written");
+        }
     }
 #elif Q == 4
     // a file that cannot be opened makes the writer and the loader throw std::runtime_error
